@@ -63,9 +63,13 @@ struct Seq {
 
 fn gen_sequence(rng: &mut Rng, kind: &str, n: usize) -> Seq {
     let mut s = Seq { stream: vec![], svc: vec![], bounds: vec![] };
+    // every fourth connection comes from a client that does not count: all its requests carry
+    // the same transaction id and unit id (different requests under identical headers)
+    let fixed = if rng.chance(1, 4) { Some((rng.u16(), rng.unit())) } else { None };
     for _ in 0..n {
         let req = srv_request(rng, kind);
-        let f = frame(kind, rng.u16(), rng.u8(), &spec::request_bytes(&req).unwrap());
+        let (tid, unit) = fixed.unwrap_or_else(|| (rng.u16(), rng.unit()));
+        let f = frame(kind, tid, unit, &spec::request_bytes(&req).unwrap());
         s.stream.extend(f);
         s.bounds.push(s.stream.len());
         s.svc.push(gen_outcome(rng, &req));
@@ -80,6 +84,22 @@ fn svc_tok(svc: &[Svc]) -> String {
 // ================================================================ C07
 
 pub fn gen_c07(out: &mut Out, rng: &mut Rng, thorough: bool) {
+    // every unit / slave id, both framings: an answered request, one the service fails, and one
+    // it answers again, pipelined
+    for kind in ["tcp", "rtu"] {
+        for unit in 0..=255u8 {
+            let a = rng.u16();
+            let mut data = frame(kind, rng.u16(), unit, &spec::request_bytes(&Request::ReadHoldingRegisters(a, 2)).unwrap());
+            data.extend(frame(kind, rng.u16(), unit, &spec::request_bytes(&Request::WriteSingleRegister(a, 9)).unwrap()));
+            data.extend(frame(kind, rng.u16(), unit, &spec::request_bytes(&Request::ReadCoils(a, 3)).unwrap()));
+            let svc = [
+                Svc::Reply(Response::ReadHoldingRegisters(rng.words(2))),
+                Svc::Exception(tokio_modbus::ExceptionCode::new(rng.exc_code())),
+                Svc::Reply(Response::ReadCoils(rng.bits(8))),
+            ];
+            monitor_line(out, &format!("srv {kind} svc={} r=d{}", svc_tok(&svc), hex_raw(&data)));
+        }
+    }
     let n = if thorough { 100_000 } else { 5_000 };
     for i in 0..n {
         let kind = if i % 2 == 0 { "tcp" } else { "rtu" };
